@@ -52,44 +52,48 @@ pub fn jitter(r: core::ops::Range<u64>) -> u64 {
 // `run_utf8_validation` (which uses SWAR/align_offset and stalls the SAT back
 // end).  Validated against std at `setup` (bin/validate_models).
 pub fn utf8_valid(v: &[u8]) -> bool {
-    let n = v.len();
+    // One byte per iteration, no inner loop (cheap to unroll): `need` continuation bytes are still
+    // expected, the next one must lie in lo..=hi (the first continuation byte of E0/ED/F0/F4
+    // sequences has a narrower range, RFC 3629 section 4).
+    let mut need: u8 = 0;
+    let mut lo: u8 = 0x80;
+    let mut hi: u8 = 0xBF;
     let mut i = 0usize;
-    while i < n {
+    while i < v.len() {
         let b = v[i];
-        if b < 0x80 {
-            i += 1;
-            continue;
-        }
-        let (need, lo, hi): (usize, u8, u8) = match b {
-            0xC2..=0xDF => (1, 0x80, 0xBF),
-            0xE0 => (2, 0xA0, 0xBF),
-            0xE1..=0xEC => (2, 0x80, 0xBF),
-            0xED => (2, 0x80, 0x9F),
-            0xEE..=0xEF => (2, 0x80, 0xBF),
-            0xF0 => (3, 0x90, 0xBF),
-            0xF1..=0xF3 => (3, 0x80, 0xBF),
-            0xF4 => (3, 0x80, 0x8F),
-            _ => return false,
-        };
-        if i + need >= n {
-            // not enough continuation bytes (they live at i+1 ..= i+need)
-            return false;
-        }
-        let c1 = v[i + 1];
-        if c1 < lo || c1 > hi {
-            return false;
-        }
-        let mut k = 2;
-        while k <= need {
-            let c = v[i + k];
-            if c < 0x80 || c > 0xBF {
+        if need == 0 {
+            if b >= 0x80 {
+                if b >= 0xC2 && b <= 0xDF {
+                    need = 1;
+                } else if b >= 0xE0 && b <= 0xEF {
+                    need = 2;
+                    if b == 0xE0 {
+                        lo = 0xA0;
+                    } else if b == 0xED {
+                        hi = 0x9F;
+                    }
+                } else if b >= 0xF0 && b <= 0xF4 {
+                    need = 3;
+                    if b == 0xF0 {
+                        lo = 0x90;
+                    } else if b == 0xF4 {
+                        hi = 0x8F;
+                    }
+                } else {
+                    return false;
+                }
+            }
+        } else {
+            if b < lo || b > hi {
                 return false;
             }
-            k += 1;
+            need -= 1;
+            lo = 0x80;
+            hi = 0xBF;
         }
-        i += need + 1;
+        i += 1;
     }
-    true
+    need == 0
 }
 
 #[repr(C)]
@@ -107,8 +111,26 @@ fn some_utf8_error() -> core::str::Utf8Error {
     unsafe { core::mem::transmute::<Utf8ErrorTwin, core::str::Utf8Error>(t) }
 }
 
+/// Ghost step counter: turns "this loop runs too long" into an ordinary assertion, so that Kani
+/// can emit a concrete playback test for it (it cannot for a bare unwinding assertion).
+pub static mut STEPS: u32 = 0;
+pub static mut STEP_BUDGET: u32 = u32::MAX;
+pub fn tick() {
+    unsafe {
+        STEPS += 1;
+        assert!(STEPS <= STEP_BUDGET, "iteration budget exceeded (termination)");
+    }
+}
+pub fn set_step_budget(n: u32) {
+    unsafe {
+        STEPS = 0;
+        STEP_BUDGET = n;
+    }
+}
+
 /// Stub for `core::str::from_utf8` (and through it `String::from_utf8`).
 pub fn utf8_model(v: &[u8]) -> Result<&str, core::str::Utf8Error> {
+    tick();
     if utf8_valid(v) {
         Ok(unsafe { core::str::from_utf8_unchecked(v) })
     } else {
